@@ -494,10 +494,10 @@ pub fn gen_edit(rng: &mut Rng, sc: &Scenario, n: u64) -> Option<Step> {
         let k = rng.pick(&var_keys).clone();
         // commands print bytes, not text: some values differ from each other only in a byte that
         // is not valid UTF-8
-        let value = match rng.weighted(&[10, 63, 15, 12]) {
+        let value = match rng.weighted(&[10, 50, 15, 25]) {
             0 => "!fail".to_string(),
             // the same visible text with different trailing white space each time
-            3 => format!("{} steady{}", k, rng.pick(&["", "\n", "\n\n", " \n", "\t", " "])),
+            3 => format!("{} steady{}", k.rsplit("__").next().unwrap_or(""), rng.pick(&["", "\n", "\n\n", " \n", "\t", " "])),
             2 => format!("blob \\x{:02x} end\n", 0x80 + rng.below(0x7f)),
             _ => format!("{} {}\n", k, n),
         };
@@ -506,6 +506,10 @@ pub fn gen_edit(rng: &mut Rng, sc: &Scenario, n: u64) -> Option<Step> {
     if files.is_empty() {
         return None;
     }
+    // files that declared directories only reach through a link get a second ticket
+    let mut files = files;
+    let linked: Vec<(String, bool)> = files.iter().filter(|f| f.0.contains("/shared/")).cloned().collect();
+    files.extend(linked);
     let (path, _is_out) = rng.pick(&files).clone();
     let op = match rng.weighted(&[30, 8, 12, 10, 10, 10, 10, 10, 8]) {
         8 => FsOp::WriteOlder { path, content: format!("older revision #{}\n", n) },
